@@ -225,6 +225,11 @@ def run_doctest_case(spec, tmpdir, name):
     ex = exs[0]
     ex.mode = spec.get('mode', 'native')
     ex._parse()
+    werr = bool(spec.get('warn_error'))
+    outer = warnings.catch_warnings()
+    outer.__enter__()
+    if werr:
+        warnings.simplefilter('error')      # the process runs with warnings turned into errors
     snap = Snapshot()
     exc = None
     try:
@@ -237,13 +242,15 @@ def run_doctest_case(spec, tmpdir, name):
         loop = snap.loop_running()
     finally:
         snap.restore()
+        outer.__exit__(None, None, None)
         sys.modules.pop(name, None)
         if hasattr(sys, 'xv12_OBJ'):
             del sys.xv12_OBJ
     failed = ex.exc_info is not None
     real_end = ending_class(exc)
     parts = model_parts(ex, infos, spec.get('allskip'))
-    pre = '%s:-1:%s:%s' % (enc(tmpdir), '/'.join(spec.get('top', [])) or '~', spec.get('import_end', 'n'))
+    pre = '%s:-1:%s:%s:%d' % (enc(tmpdir), '/'.join(t for t in spec.get('top', [])) or '~', spec.get('import_end', 'n'),
+                              1 if werr else 0)
     line = '\t'.join(['runbracket', '1,2,3,4,5', '7,8', enc_list(snap.path), pre] + parts)
     return {'model_line': line, 'observed': '%s %s' % (coarse(real_end), after), 'before': snap.render_before(),
             'after': after, 'loop': loop, 'source': src, 'real_end': real_end, 'failed': failed,
@@ -274,14 +281,16 @@ def run_import_case(spec, tmpdir, name):
     snap = Snapshot()
     exc = None
     warned = 0
+    werr = bool(spec.get('warn_error'))
     try:
-        with warnings.catch_warnings(record=True) as wl:
-            warnings.simplefilter('always')
+        with warnings.catch_warnings(record=not werr) as wl:
+            # warn_error: the process runs with warnings turned into errors (-W error)
+            warnings.simplefilter('error' if werr else 'always')
             try:
                 util_import.import_module_from_path(modpath, index=spec.get('index', -1))
             except BaseException as e:   # noqa
                 exc = e
-            warned = len([w for w in wl if 'PythonPathContext' in str(w.message)])
+            warned = len([w for w in (wl or []) if 'PythonPathContext' in str(w.message)])
         after_path = list(sys.path)
         after = snap.render_now({})
     finally:
@@ -302,7 +311,7 @@ def run_import_case(spec, tmpdir, name):
         f = op.split('.')
         events.append({'pa': lambda: 'app:' + f[1], 'pi': lambda: 'ins:%s:%s' % (f[1], f[2]), 'pr': lambda: 'rem:' + f[1],
                        'pp': lambda: 'pop'}[f[0]]())
-    events.append('exit:0')
+    events.append('exitw:0' if werr else 'exit:0')
     line = '\t'.join(['ppc', enc_list(snap.path), '|'.join(events)])
     return {'model_line': line, 'result': result, 'before_path': snap.path, 'after_path': after_path, 'warned': warned,
             'source': src, 'after': after, 'before': snap.render_before(), 'exc': repr(exc)[:300] if exc else None}
@@ -315,7 +324,7 @@ def expected_import_result(spec, model_answer):
     last = model_answer.split('\t')[-1]
     res, path = last.split('/', 1)
     ie = spec.get('import_end', 'n')
-    if res in ('RuntimeError', 'IndexError'):
+    if res in ('RuntimeError', 'IndexError', 'warnRaised'):
         result = 'RuntimeError'          # raised by __exit__, wrapped by _custom_import_modpath (an Exception)
         if ie in ('s', 'k'):
             result = 'RuntimeError'      # the exception of __exit__ replaces the propagating BaseException
@@ -361,6 +370,19 @@ def run_ppc_history(path0, events):
                         res = 'RuntimeError'
                     except IndexError:
                         res = 'IndexError'
+                elif f[0] == 'exitw':
+                    o = objs[int(f[1])]
+                    with warnings.catch_warnings():
+                        warnings.simplefilter('error')
+                        try:
+                            o.__exit__(None, None, None)
+                            res = 'clean'
+                        except RuntimeError:
+                            res = 'RuntimeError'
+                        except IndexError:
+                            res = 'IndexError'
+                        except UserWarning:
+                            res = 'warnRaised'
                 elif f[0] == 'ins':
                     sys.path.insert(int(f[1]), dec_name(f[2]))
                 elif f[0] == 'app':
